@@ -91,7 +91,11 @@ func c20Config(sc c20scen) *mc.SchedConfig {
 			tp.ctx, tp.cancel = context.WithCancel(context.Background())
 			e.Go(fmt.Sprintf("search%d", i), func() {
 				tp.stage = "acq"
-				proc, err := s.Acquire(tp.ctx)
+				// the scheduler sees the context through a wrapper whose Err/Done are scheduling points: a
+				// cancellation can land between any two observations of the context (e.g. after the
+				// semaphore granted a slot and before a later ctx.Err() check)
+				octx := &c20Ctx{Context: tp.ctx, e: e, name: fmt.Sprintf("ctx%d", i)}
+				proc, err := s.Acquire(octx)
 				if err != nil {
 					if tp.ctx.Err() == nil {
 						e.Fail("Acquire failed (%v) although its context is not done", err)
@@ -109,7 +113,7 @@ func c20Config(sc c20scen) *mc.SchedConfig {
 					e.Point("work", fmt.Sprintf("search%d", i), nil)
 					tp.stage = "yielding"
 					wasTimer := proc.yieldTimer != nil
-					err := proc.Yield(tp.ctx)
+					err := proc.Yield(octx)
 					if err != nil {
 						if tp.ctx.Err() == nil {
 							e.Fail("Yield failed (%v) although its context is not done", err)
@@ -175,6 +179,23 @@ func c20Config(sc c20scen) *mc.SchedConfig {
 		}
 	}
 	return cfg
+}
+
+// c20Ctx makes every observation of a context by the code under test a scheduling point.
+type c20Ctx struct {
+	context.Context
+	e    *mc.Exec
+	name string
+}
+
+func (c *c20Ctx) Err() error {
+	c.e.Point("ctx.Err", c.name, nil)
+	return c.Context.Err()
+}
+
+func (c *c20Ctx) Done() <-chan struct{} {
+	c.e.Point("ctx.Done", c.name, nil)
+	return c.Context.Done()
 }
 
 func newScheduler2(capacity int64) *semaphoreScheduler {
